@@ -867,6 +867,19 @@ pub fn c09_parts(quick: bool) -> (Vec<EwSpec>, Vec<Scenario>) {
             scs.push(sc(&format!("C09.crossing.{}.c{}s{}", sname, if cnow { "-now" } else { "" }, if snow { "-now" } else { "" }), &cfg, script, env, d, EO_C09 | EO_C08));
         }
     }
+    // two clients: one closes and is gone at once (its request may be lost: the server side of it then ends by the active time-out), the
+    // other closes 2 / 8 / 12 s later or is closed by the server - the timers of one connection must not hold up the other's
+    for (oname, other) in [("client-closes", Act::CDisconnectNow(0)), ("client-closes-flushing", Act::CDisconnect(0)), ("server-closes", Act::SDisconnectNow(0)), ("stays", Act::CFlush(0))] {
+        for later in [4usize, 16, 24] {
+            if quick && later == 16 { continue; }
+            let cfg = EwCfg::new(2);
+            let script = vec![at(0, Act::Connect(0)), at(0, Act::Connect(1)), after_c(0, 1, Act::CSend(0, 0, Reliable, 100)), after_c(1, 1, Act::CSend(1, 0, Reliable, 100)),
+                              at(8, Act::CDisconnectNow(1)), at(9, Act::Forget(1)), at(8 + later, other.clone())];
+            let mut env = EwEnv::basic(3, 120);
+            env.dev_start = 8; env.fates = DF_LOSS; env.fate_types = &[4, 5]; env.deltas = &[500]; env.fair_delta = 500; env.stop_when_done = false;
+            scs.push(sc(&format!("C09.two-clients.one-gone-after-closing.other-{}.{}", oname, later), &cfg, script, env, 1, EO_C09 | EO_C08 | EO_C10));
+        }
+    }
     (scs, custom)
 }
 
